@@ -72,7 +72,7 @@ OPS_BY_PROP = {
     'C01': MIX_OPS * 3 + BACKGROUND_MUTATORS + ['empty_negatives', 'copy', 'proxy', 'flow_proxy', 'view', 'set_phases',
                                                  'set_phase', 'restart', 'churn', 'link_with', 'unlink'],
     'C10': ['read_flow'] * 6 + ['set_flow'] * 4 + ['churn'] * 2 + ['mix_from', 'copy', 'restart',
-                                                                  'set_phases', 'bad_key', 'view', 'bad_alias'],
+                                                                  'set_phases', 'bad_key', 'view', 'bad_alias', 'reuse_key', 'reuse_key'],
     'C11': ['move_phase', 'read_flow', 'read_total', 'set_flow', 'set_flow', 'set_total', 'set_T', 'set_P', 'set_phase',
             'set_phases', 'link_with', 'unlink', 'proxy', 'flow_proxy', 'copy_like', 'copy', 'restart',
             'reset_cache', 'view', 'scale', 'mix_from', 'bad_units', 'churn', 'reduce_phases', 'empty',
@@ -940,6 +940,25 @@ class StreamWorld(BaseWorld):
         nm = self.names(r)[0]
         return {'stream': nm, 'n': r.choice([20, 60, 120, 300, 520, 700]), 'salt': r.randint(0, 10 ** 6)}
 
+    def gen_reuse_key(self, r):
+        """the caller keeps ONE list object as its key, edits it in place and uses it again"""
+        nm = self.names(r, kind='single')
+        if not nm:
+            return None
+        pk = self.pk(nm[0])
+        if pk.n < 3:
+            return None
+        k = r.randint(2, min(4, pk.n - 1))
+        chosen = r.sample(range(pk.n), k)
+        by_pos = {}
+        for n_, pos in sorted(pk.names.items()):
+            by_pos.setdefault(pos, []).append(n_)
+        ids = [r.choice(by_pos[c]) for c in chosen]
+        other = r.choice([c for c in range(pk.n) if c not in chosen])
+        return {'stream': nm[0], 'ids': ids, 'edit': r.choice(['reverse', 'replace', 'append', 'swap']),
+                'extra': r.choice(by_pos[other]), 'write': r.random() < 0.4,
+                'values': [r.choice(FLOW_ALPHABET) for _ in range(k + 1)]}
+
     def gen_bad_key(self, r):
         return {'stream': self.names(r)[0], 'key': r.choice(['Unobtainium', 'water ', 'XYZ123'])}
 
@@ -1248,6 +1267,17 @@ class StreamWorld(BaseWorld):
             return False
         return self.pkg_of[a] == self.pkg_of[b]
 
+    def pre_reuse_key(self, ev):
+        n = ev['stream']
+        if self.is_multi(n):
+            return False
+        pk = self.pk(n)
+        names = list(ev['ids']) + [ev['extra']]
+        if any(x not in pk.names for x in names):
+            return False
+        pos = [pk.names[x] for x in names]
+        return len(set(pos)) == len(pos) and len(ev['values']) >= len(names)
+
     def pre_bad_alias(self, ev):
         pk = self.pk(ev['stream'])
         return ev['alias'] in pk.names and ev['id'] in pk.pos and pk.pos[ev['id']] != pk.names[ev['alias']]
@@ -1425,7 +1455,7 @@ class StreamWorld(BaseWorld):
         op = ev['op']
         st = ev.get('stream')
         W = {'f': set(), 't': set(), 'p': set()}
-        if op in ('set_flow', 'set_total', 'scale', 'imul', 'empty', 'churn', 'empty_negatives'):
+        if op in ('set_flow', 'set_total', 'scale', 'imul', 'empty', 'churn', 'empty_negatives', 'reuse_key'):
             W['f'].add(st)
         elif op == 'set_T' or op == 'set_P' or op == 'copy_thermal_condition':
             W['t'].add(st)
@@ -2086,6 +2116,55 @@ class StreamWorld(BaseWorld):
                 if ph not in after.rows or not close(after.rows[ph], want):
                     self.fail('empty-negatives', f'{name}.empty_negative_flows() changed more than the negative entries',
                               {'event': ev, 'before': before.to_json(), 'after': after.to_json()})
+        return 'ok'
+
+    def do_reuse_key(self, ev):
+        name = ev['stream']
+        s = self.streams[name]
+        pk = self.pk(name)
+        key = list(ev['ids'])                 # ONE list object, kept by the caller
+        proj = self.project(name)
+        row = proj.rows[proj.phases[0]]
+
+        def expect(lst):
+            return np.array([row[pk.names[x]] for x in lst], dtype=float)
+        r = self.call(ev, lambda: s.imol[key])
+        if r[0] == 'exc':
+            return self.judge_lookup_exception(dict(ev, key={'phase': None, 'ids': list(key), 'seq': 'list'}), r, proj,
+                                               f_kind='read')
+        if not self.same_modulo_shape(dense(r[1]), expect(key)):
+            self.fail('read-key', f'{name}.imol[{key}] returned {dense(r[1]).tolist()}, the data say {expect(key).tolist()}',
+                      {'event': ev, 'state': proj.to_json()})
+        if ev['edit'] == 'reverse':
+            key.reverse()
+        elif ev['edit'] == 'replace':
+            key[0] = ev['extra']
+        elif ev['edit'] == 'swap':
+            key[0], key[-1] = key[-1], key[0]
+        else:
+            key.append(ev['extra'])
+        if ev.get('write'):
+            vals = np.array(ev['values'][:len(key)], dtype=float)
+            r2 = self.call(ev, lambda: s.imol.__setitem__(key, vals))
+            self.touch(name)
+            if r2[0] == 'exc':
+                return self.unexpected(ev, r2, 'reuse_key')
+            after = self.project(name)
+            want = row.copy()
+            for x, v in zip(key, vals):
+                want[pk.names[x]] = v
+            if not close(after.rows[after.phases[0]], want):
+                self.fail('write-key', f'{name}.imol[{key}] = {vals.tolist()} (the list object had been used as a key '
+                          f'before and was edited in place) gave {after.rows[after.phases[0]].tolist()}, expected '
+                          f'{want.tolist()}', {'event': ev, 'state': proj.to_json()})
+            return 'ok'
+        r2 = self.call(ev, lambda: s.imol[key])
+        if r2[0] == 'exc':
+            return self.unexpected(ev, r2, 'reuse_key')
+        if not self.same_modulo_shape(dense(r2[1]), expect(key)):
+            self.fail('read-key', f'{name}.imol[{key}] (the same list object as in the previous lookup, edited in place) '
+                      f'returned {dense(r2[1]).tolist()}, the data say {expect(key).tolist()}',
+                      {'event': ev, 'state': proj.to_json()})
         return 'ok'
 
     def do_bad_key(self, ev):
